@@ -469,7 +469,7 @@ Feed(m, res) ==
          IF f.nm > 1 THEN SetTop(m, [f EXCEPT !.nm = f.nm - 1])
          ELSE IF f.echo THEN (IF f.exc # "" THEN Raise(m, f.exc) ELSE Return(m, <<>>, TRUE))
          ELSE SetTop(m, [f EXCEPT !.nm = 0, !.pc = "d_restore"])
-    [] f.pc = "d_restore" -> AfterRestore(m, f, <<>>))
+    [] f.pc = "d_restore" -> IF f.exc # "" THEN Raise(m, f.exc) ELSE Return(m, <<>>, TRUE))
 
 \* start an operation: op = [name, more, tmo, min, echo, req, hide, nbody]
 OpFrame(op) ==
